@@ -214,6 +214,64 @@ ALLOWED = {  # operand kinds y for which `a sym (S @ y)` is meaningful Python
 }
 
 
+def _good_new(rng, i, n):
+    while True:
+        st, info = _gen_new(rng, i, n, allow_dup=False)
+        if info is not None and info["good"] and st["dom"] != [] and st["ran"] != [] and info["n_out"] > 0:
+            return st, info
+
+
+def _T_info(v, i):
+    return {"i": i, "n_in": v["n_out"], "n_out": v["T_out"], "T_out": v["n_out"], "good": True, "full": False,
+            "kinds": {"s", "v", "a", "csr", "ad"}, "pend": v["pend"], "left": False, "final": False, "len": v["len"],
+            "syms": set(), "site": False}
+
+
+def _chain_info(a, b, i):
+    return {"i": i, "n_in": b["n_in"], "n_out": a["n_out"], "T_out": b["T_out"], "good": True, "full": False,
+            "kinds": a["kinds"] & b["kinds"], "pend": True, "left": False, "final": False, "len": a["len"] + b["len"],
+            "syms": set(), "site": False, "nleft": 0}
+
+
+def _gen_transpose_then_chain(rng, stmts, vars_):
+    """Stratum: a slicer is transposed FIRST (the transpose applied or not, or the slicer copied afterwards), THEN used as the
+    right-most factor of a chain of length 2 or 3, THEN the chain is transposed and applied; finally a reverse operation on the
+    same slicer followed by .T (must raise ValueError). Anything cached on the object by the first transpose must not leak."""
+    i = 0
+
+    def add(st, info):
+        nonlocal i
+        stmts.append(st)
+        vars_.append(info)
+        i += 1
+        return info
+
+    st, S1 = _good_new(rng, i, rng.randint(1, 5))
+    add(st, S1)
+    T1 = add({"op": rng.choice(["T", "T", "TP"]), "i": i, "j": S1["i"], "stratum": "transpose-then-chain"}, _T_info(S1, i))
+    if rng.random() < 0.5:
+        stmts.append({"op": "apply", "j": T1["i"], "y": _gen_y(rng, rng.choice(["v", "a", "csr", "ad", "s"]), T1["n_in"], False)})
+    right = S1
+    if rng.random() < 0.4:  # copy() after the transpose: the copy is the right-most factor
+        right = add({"op": "copy", "i": i, "j": S1["i"]}, dict(S1, i=i, kinds=set(S1["kinds"]), syms=set()))
+    st, S0 = _good_new(rng, i, right["n_out"])
+    add(st, S0)
+    outer = S0
+    if rng.random() < 0.5:  # S2 @ S0 @ S1 = (S2 @ S0) @ S1
+        st, S2 = _good_new(rng, i, S0["n_out"])
+        add(st, S2)
+        outer = add({"op": "chain", "i": i, "j": S2["i"], "k": S0["i"]}, _chain_info(S2, S0, i))
+    ch = add({"op": "chain", "i": i, "j": outer["i"], "k": right["i"]}, _chain_info(outer, right, i))
+    Tc = add({"op": "T", "i": i, "j": ch["i"]}, _T_info(ch, i))
+    stmts.append({"op": "apply", "j": Tc["i"], "y": _gen_y(rng, rng.choice(["v", "v", "a", "csr", "ad"]), Tc["n_in"], False)})
+    stmts.append({"op": "apply", "j": T1["i"], "y": _gen_y(rng, "v", T1["n_in"], False)})
+    if rng.random() < 0.6:  # (c * S1).T after S1.T has been evaluated: ValueError on both sides
+        r = {"op": "rop", "i": i, "j": S1["i"], "sym": "*", "a": {"k": "s", "v": "2", "int": False}, "via": "op"}
+        add(r, dict(S1, i=i, kinds={"s", "v", "a", "csr", "ad"}, pend=True, left=True, syms={"*"}, nleft=1))
+        add({"op": "T", "i": i, "j": i - 1}, None)
+    return i
+
+
 def gen_case(rng, tier):
     big = tier != "quick"
     nst = rng.randint(2, 12 if not big else 18)
@@ -223,6 +281,9 @@ def gen_case(rng, tier):
     stmts, vars_ = [], []
     has_T = has_dup = False  # a program either transposes or uses repeated domain indices (two theorems, two hypotheses)
     nxt = 0
+    if rng.random() < 0.15:
+        nxt = _gen_transpose_then_chain(rng, stmts, vars_)
+        has_T = True
     for step in range(nst):
         usable = [v for v in vars_ if v is not None]
         choice = rng.choice(["new"] * 4 + ["apply"] * 6 + ["rop"] * 4 + ["chain"] * 4 + ["T", "T", "TP", "copy", "copy", "unsup"][: 6 if rng.random() < 0.5 else 5]) if usable else "new"
@@ -311,7 +372,8 @@ def gen_case(rng, tier):
         elif choice == "chain":
             pairs = [(a, b) for a in usable for b in usable
                      if not b["final"] and b["n_out"] is not None and b["n_out"] == a["n_in"] and a["len"] + b["len"] <= 3
-                     and not (a["left"] and b["left"] and not (a["syms"] <= {"+", "-", "*"}))]
+                     and not (a["left"] and b["left"] and not (a["syms"] <= {"+", "-", "*"}))
+                     and "/" not in b["syms"]]  # an outer projection could drop the rows where numpy produced inf (the model stops there)
             if not pairs:
                 continue
             a, b = rng.choice(pairs)  # S_new = a @ b : b is applied first
@@ -911,6 +973,10 @@ def stats(cases, impl_outs):
     for case in cases:
         sts = case["stmts"]
         Ts = {st["i"] for st in sts if st["op"] in ("T", "TP")}
+        c["stratum:transpose-then-chain-then-transpose"] += sum(1 for st in sts if st.get("stratum") == "transpose-then-chain")
+        c["stratum:T-of-pending-operand-operation(ValueError)"] += sum(
+            1 for st, o in zip(sts, impl_outs[cases.index(case)] if isinstance(impl_outs[cases.index(case)], list) else [])
+            if st["op"] in ("T", "TP") and isinstance(o, dict) and o.get("err") == "ValueError")
         c["stratum:T-of-T"] += sum(1 for st in sts if st["op"] in ("T", "TP") and st["j"] in Ts)
         c["stratum:new-via-pp.ad.Projection"] += sum(1 for st in sts if st["op"] == "new" and st.get("via") == "projection")
         c["stratum:chain-via-sum_projection_list"] += sum(1 for st in sts if st["op"] == "chain" and st.get("via") == "sumproj")
